@@ -207,7 +207,7 @@ def add_mode_scopes(cfg, ops, rm):
         return ops
 
     def scope():
-        return rm.choice(['bn', 'bn', 'leaf:%d' % rm.randint(0, 40)])
+        return rm.choice(['bn', 'bn', 'leaf:%d' % rm.randint(0, 40), 'leaf:%d' % rm.randint(0, 40), 'seed'])
     out = []
     for o in ops:
         if o['op'] == 'set_mode' and rm.chance(0.5):
